@@ -137,7 +137,7 @@ class LoopExec:
         base = ["(bvule %s (_ bv%d 8))" % (pop, K)]
         q = "(set-logic ALL)\n" + "\n".join(decl) + "\n" + "\n".join("(assert %s)" % a for a in base + asserts) + "\n(check-sat)\n(get-value (mask s))\n"
         t0 = time.time()
-        p = subprocess.run([Z3, "-in", "-T:600"], input=q, capture_output=True, text=True)
+        p = subprocess.run([Z3, "-in", "-T:1500"], input=q, capture_output=True, text=True)
         self.queries += 1
         self.solver_s += time.time() - t0
         out = p.stdout.strip()
